@@ -206,6 +206,122 @@ def stored_merge(ctx, n):
         stored_case(ctx, odb, base, derive(base), derive(base), rng.choice(POLICIES))
 
 
+FAULTS = ["missing", "truncated", "empty", "not_a_list", "not_json"]
+FAULT_ERRORS = ("MergeError", "FileNotFoundError", "ObjectFormatError")
+
+
+def _damage(odb, oid, kind, cut):
+    """make the stored object `oid` unreadable as a listing (never: readable as a different listing)"""
+    import os
+
+    path = odb.oid_to_path(oid)
+    if kind == "missing":
+        os.unlink(path)
+        return
+    with open(path, "rb") as f:
+        body = f.read()
+    if kind == "truncated":
+        # a proper prefix of a serialised JSON list is never a JSON document
+        new = body[: int(cut * len(body)) % len(body)]
+    elif kind == "empty":
+        new = b""
+    elif kind == "not_a_list":
+        new = b'{"relpath": "a"}'
+    else:
+        new = b"\x00\xff not json " + body[:7]
+    os.chmod(path, 0o644)
+    with open(path, "wb") as f:
+        f.write(new)
+    os.chmod(path, 0o444)
+
+
+def _ops(a, s):
+    """operation kinds by which listing s differs from listing a"""
+    ops = set()
+    for k in set(a) | set(s):
+        if k not in a:
+            ops.add("add")
+        elif k not in s:
+            ops.add("remove")
+        elif a[k] != s[k]:
+            ops.add("change")
+    return ops
+
+
+def faulty_case(ctx, base, od, td, al, target, kind, cut):
+    """real `merge()` through a store in which one of the three named objects cannot be read as a listing (collected,
+    half-written, overwritten) - or with no ancestor at all (`ancestor_info=None`: the ancestor IS the empty listing).
+    The listings the three identifiers name are known to the harness; whatever the store does, a merge that returns must
+    return their three-way merge under the policy, in both argument orders; otherwise it must fail."""
+    from dvc_data.hashfile.tree import MergeError, merge
+    from dvc_objects.errors import ObjectFormatError
+
+    odb = _new_odb(ctx)
+    a, o, t = _store(odb, base), _store(odb, od), _store(odb, td)
+    da, do, dt = a.as_dict(), o.as_dict(), t.as_dict()
+    case = {"stored_fault": {"target": target, "kind": kind, "cut": cut}, "a": _pairs(da), "o": _pairs(do), "t": _pairs(dt), "allowed": al}
+    anc_info = a.hash_info
+    if target == "no_ancestor":
+        anc_info, da = None, {}
+    else:
+        _damage(odb, {"ancestor": a, "ours": o, "theirs": t}[target].oid, kind, cut)
+    ctx.case(case)
+    exp, conflicts = three_way(da, do, dt)
+    both = do != da and dt != da
+    within = (not both) or (_ops(da, do) | _ops(da, dt)) <= set(al or ["add"])
+    for order, (x, y) in (("ours,theirs", (o, t)), ("theirs,ours", (t, o))):
+        kind_, res = safe_call(lambda: merge(odb, anc_info, x.hash_info, y.hash_info, allowed=al or None),
+                               expected=(MergeError, FileNotFoundError, ObjectFormatError))
+        if kind_ == "ok":
+            d = res.as_dict()
+            lst = sorted(({"md5": v[1].value, "relpath": "/".join(k)} for k, v in d.items()), key=lambda e: e["relpath"])
+            oid = hashlib.md5(json.dumps(lst, sort_keys=True).encode()).hexdigest() + ".dir"
+            ctx.oracle(
+                not conflicts and _canon(exp) == _canon(d) and res.oid == oid,
+                case,
+                {"why": "merge through a store with an unreadable object returned something other than the three-way merge of the named listings",
+                 "order": order, "impl": _canon(d), "three_way": _canon(exp), "conflicts": ["/".join(c) for c in conflicts],
+                 "impl_oid": res.oid, "canonical_oid": oid},
+            )
+            ctx.oracle(within, case, {"why": "policy accepted a merge in which a side did more than the allowed operations", "order": order,
+                                      "ours_did": sorted(_ops(da, do)), "theirs_did": sorted(_ops(da, dt)), "allowed": al or ["add"]})
+            ctx.count("stored_fault:%s:ok" % target)
+        else:
+            ctx.oracle(res in FAULT_ERRORS, case, {"impl": res, "order": order, "why": "unexpected exception"})
+            ctx.count("stored_fault:%s:%s" % (target, res))
+
+
+def stored_merge_faulty(ctx, n):
+    from dvc_data.hashfile.hash_info import HashInfo
+
+    rng = ctx.rng
+    keys = [("a",), ("b",), ("d", "c"), ("d", "e", "f"), ("\u00e9 x",)]
+
+    def rv():
+        return HashInfo("md5", hashlib.md5(rng.choice(["1", "2", "3", "4"]).encode()).hexdigest())
+
+    def derive(base, p_change, p_remove, p_add):
+        d = dict(base)
+        for k in keys:
+            r = rng.random()
+            if k in d:
+                if r < p_change:
+                    d[k] = rv()
+                elif r < p_change + p_remove:
+                    del d[k]
+            elif r < p_add:
+                d[k] = rv()
+        return d
+
+    for _ in range(n):
+        base = {k: rv() for k in keys if rng.random() < 0.7}
+        # per-case profile: histories that only add / also remove / also change
+        pc, pr, pa = rng.choice([0.0, 0.25]), rng.choice([0.0, 0.1, 0.3]), rng.choice([0.15, 0.5])
+        od, td = derive(base, pc, pr, pa), derive(base, pc, pr, pa)
+        target = rng.choice(["ancestor", "ancestor", "ancestor", "ours", "theirs", "no_ancestor"])
+        faulty_case(ctx, base, od, td, rng.choice(POLICIES), target, rng.choice(FAULTS), round(rng.random(), 3))
+
+
 def stored_merge_with_meta(ctx, n):
     """real merge() on a legacy (md5-dos2unix) store whose directory listings carry per-entry metadata: a side may change only
     the metadata of an entry (exec bit, size) - that is a change like any other for the three-way rule and for the policy"""
@@ -283,7 +399,8 @@ def stored_merge_with_meta(ctx, n):
 def run(ctx):
     ctx.rule = (
         "exhaustive: all (ancestor, ours, theirs) over 3 keys (one nested) x {absent,v1,v2} x policies through the real _merge; "
-        "random: derived triples over 11 keys; stored: real merge() of stored trees, also on a legacy store whose listings carry per-entry metadata (metadata-only changes). non-trivial = both sides differ from the ancestor; "
+        "random: derived triples over 11 keys; stored: real merge() of stored trees, also on a legacy store whose listings carry per-entry metadata (metadata-only changes); stored_fault: real merge() (both argument orders) through a store in which the ancestor / ours / theirs object is missing, truncated, empty or not a listing, or with no ancestor (None): "
+        "a merge that returns must return the three-way merge of the named listings within the policy, otherwise fail with MergeError/FileNotFoundError/ObjectFormatError. non-trivial = both sides differ from the ancestor; "
         "distinct = sha256 of the canonical case"
     )
     ctx.assumptions = ["dictdiffer treats tuples as atomic values (checked by the exhaustive tie)"]
@@ -296,6 +413,7 @@ def run(ctx):
     random_cases(ctx, ctx.n(3000, 40000))
     stored_merge(ctx, ctx.n(150, 1500))
     stored_merge_with_meta(ctx, ctx.n(200, 2000))
+    stored_merge_faulty(ctx, ctx.n(200, 2000))
 
 
 def search(ctx):
@@ -311,7 +429,10 @@ def replay(ctx, payload):
     def d(p):
         return {tuple(k.split("/")): (None, HashInfo("md5", v)) for k, v in p}
 
-    if c.get("stored"):
+    if c.get("stored_fault"):
+        f = c["stored_fault"]
+        faulty_case(ctx, d(c["a"]), d(c["o"]), d(c["t"]), c["allowed"], f["target"], f["kind"], f["cut"])
+    elif c.get("stored"):
         stored_case(ctx, _new_odb(ctx), d(c["a"]), d(c["o"]), d(c["t"]), c["allowed"])
     else:
         check_cases(ctx, [(d(c["a"]), d(c["o"]), d(c["t"]), c["allowed"])], "replay")
